@@ -40,7 +40,7 @@ type State struct {
 	vars   map[types.Object]Val
 	heap   map[string]Val // key -> array term (Array Int X) or global
 	defers []deferred
-	result []Val // set at return
+	result []Val    // set at return
 	parts  []*State // the states this one was merged from (valid until the next statement executes)
 }
 
@@ -57,10 +57,10 @@ func (st *State) clone() *State {
 }
 
 type loopCtx struct {
-	label     string
-	breaks    []*State
+	label      string
+	breaks     []*State
 	onContinue func(st *State)
-	isSwitch  bool
+	isSwitch   bool
 }
 
 type fnCtx struct {
@@ -79,15 +79,15 @@ type fnCtx struct {
 }
 
 type Obl struct {
-	Name    string
-	Func    string
-	Kind    string
-	Goal    string
-	NDecls  int
-	NFacts  int
-	Props   []string
-	Text    string // human-readable clause text
-	Pos     string
+	Name   string
+	Func   string
+	Kind   string
+	Goal   string
+	NDecls int
+	NFacts int
+	Props  []string
+	Text   string // human-readable clause text
+	Pos    string
 	// results
 	Status  string
 	Solver  string
@@ -101,28 +101,28 @@ type unsupported struct{ msg string }
 
 // FV verifies one function (or lemma) against its contract.
 type FV struct {
-	w        *World
-	sess     *Sess
-	pkg      *packages.Package
-	contract *Contract
-	fname    string // display name pkg.Recv.Func
-	obls     []*Obl
-	cnt      map[string]int
-	notes    []string // abstractions performed
-	assumed  map[string]bool
-	fn       *fnCtx
-	bcount   int // counter for unique bound-variable names
-	pure     int // >0: no fresh constants, no obligations (closure-in-spec evaluation)
-	tsub     map[string]types.Type
-	specNames map[string]Val // contract parameter/result names -> values
-	oldState *State
-	loopOrd  int
+	w           *World
+	sess        *Sess
+	pkg         *packages.Package
+	contract    *Contract
+	fname       string // display name pkg.Recv.Func
+	obls        []*Obl
+	cnt         map[string]int
+	notes       []string // abstractions performed
+	assumed     map[string]bool
+	fn          *fnCtx
+	bcount      int // counter for unique bound-variable names
+	pure        int // >0: no fresh constants, no obligations (closure-in-spec evaluation)
+	tsub        map[string]types.Type
+	specNames   map[string]Val // contract parameter/result names -> values
+	oldState    *State
+	loopOrd     int
 	inlineDepth int
-	lockset  map[string]bool
-	escapes  int
-	curState *State // state of the statement being executed (for allocation bookkeeping)
-	loopIndex map[ast.Stmt]int // loops of the function under contract, numbered in source order (closures included)
-	uses     []string
+	lockset     map[string]bool
+	escapes     int
+	curState    *State           // state of the statement being executed (for allocation bookkeeping)
+	loopIndex   map[ast.Stmt]int // loops of the function under contract, numbered in source order (closures included)
+	uses        []string
 	writtenHeap map[string]bool
 }
 
@@ -1210,7 +1210,9 @@ func (fv *FV) loopClauses(ord int) (invs []Clause, dec *Clause) {
 		if c.Loop != ord {
 			continue
 		}
-		if c.Kind == "invariant" {
+		if c.Kind == "invariant" || c.Kind == "assume" {
+			// "assume": taken at the loop head without being checked (listed in the
+			// evidence as an unchecked assumption; used for tick-overflow room only)
 			invs = append(invs, c)
 		} else if c.Kind == "decreases" {
 			cc := c
@@ -1354,7 +1356,9 @@ func (fv *FV) execFor(st *State, s *ast.ForStmt, label string) *State {
 	for _, c := range invs {
 		env := fv.specEnvAt(st, s.Body.Lbrace)
 		g := fv.evalSpecBool(env, c.Expr)
-		fv.oblige(st, fmt.Sprintf("loop%d.init", ord), c.Label, g, c.Text, s.Pos())
+		if c.Kind != "assume" {
+			fv.oblige(st, fmt.Sprintf("loop%d.init", ord), c.Label, g, c.Text, s.Pos())
+		}
 	}
 	ms := fv.modifies(s.Body)
 	if s.Post != nil {
@@ -1368,6 +1372,9 @@ func (fv *FV) execFor(st *State, s *ast.ForStmt, label string) *State {
 	for _, c := range invs {
 		env := fv.specEnvAt(head, s.Body.Lbrace)
 		fv.assume(head, fv.evalSpecBool(env, c.Expr))
+		if c.Kind == "assume" {
+			fv.assumed[fmt.Sprintf("assumed without check at the head of loop %d of %s: %s", ord, fv.fname, c.Text)] = true
+		}
 	}
 	var body, exit *State
 	if s.Cond != nil {
@@ -1406,7 +1413,9 @@ func (fv *FV) execFor(st *State, s *ast.ForStmt, label string) *State {
 		for _, c := range invs {
 			env := fv.specEnvAt(bst, s.Body.Lbrace)
 			g := fv.evalSpecBool(env, c.Expr)
-			fv.oblige(bst, fmt.Sprintf("loop%d.keep", ord), c.Label, g, c.Text, s.Pos())
+			if c.Kind != "assume" {
+				fv.oblige(bst, fmt.Sprintf("loop%d.keep", ord), c.Label, g, c.Text, s.Pos())
+			}
 		}
 		if dec != nil {
 			after := fv.evalSpec(fv.specEnvAt(bst, s.Body.Lbrace), dec.Expr).T
@@ -1515,7 +1524,9 @@ func (fv *FV) execRange(st *State, s *ast.RangeStmt, label string) *State {
 		env := fv.specEnvAt(st0, s.Body.Lbrace)
 		env.loopHead = true
 		g := fv.evalSpecBool(env, c.Expr)
-		fv.oblige(st0, fmt.Sprintf("loop%d.init", ord), c.Label, g, c.Text, s.Pos())
+		if c.Kind != "assume" {
+			fv.oblige(st0, fmt.Sprintf("loop%d.init", ord), c.Label, g, c.Text, s.Pos())
+		}
 	}
 	ms := fv.modifies(s.Body)
 	head := st.clone()
@@ -1527,6 +1538,9 @@ func (fv *FV) execRange(st *State, s *ast.RangeStmt, label string) *State {
 		env := fv.specEnvAt(head, s.Body.Lbrace)
 		env.loopHead = true
 		fv.assume(head, fv.evalSpecBool(env, c.Expr))
+		if c.Kind == "assume" {
+			fv.assumed[fmt.Sprintf("assumed without check at the head of loop %d of %s: %s", ord, fv.fname, c.Text)] = true
+		}
 	}
 	body, exit := fv.branch(head, fmt.Sprintf("(< %s %s)", iv.T, n))
 	fv.loopCanary(body, ord, len(invs))
@@ -1554,7 +1568,9 @@ func (fv *FV) execRange(st *State, s *ast.RangeStmt, label string) *State {
 			env := fv.specEnvAt(bb, s.Body.Lbrace)
 			env.loopHead = true
 			g := fv.evalSpecBool(env, c.Expr)
-			fv.oblige(bb, fmt.Sprintf("loop%d.keep", ord), c.Label, g, c.Text, s.Pos())
+			if c.Kind != "assume" {
+				fv.oblige(bb, fmt.Sprintf("loop%d.keep", ord), c.Label, g, c.Text, s.Pos())
+			}
 		}
 	}
 	lc.onContinue = backEdge
@@ -1604,7 +1620,9 @@ func (fv *FV) execRangeMap(st *State, s *ast.RangeStmt, label string, ord int) *
 		env := fv.specEnvAt(st, s.Body.Lbrace)
 		env.loopHead = true
 		g := fv.evalSpecBool(env, c.Expr)
-		fv.oblige(st, fmt.Sprintf("loop%d.init", ord), c.Label, g, c.Text, s.Pos())
+		if c.Kind != "assume" {
+			fv.oblige(st, fmt.Sprintf("loop%d.init", ord), c.Label, g, c.Text, s.Pos())
+		}
 	}
 	ms := fv.modifies(s.Body)
 	head := st.clone()
@@ -1617,6 +1635,9 @@ func (fv *FV) execRangeMap(st *State, s *ast.RangeStmt, label string, ord int) *
 		env := fv.specEnvAt(head, s.Body.Lbrace)
 		env.loopHead = true
 		fv.assume(head, fv.evalSpecBool(env, c.Expr))
+		if c.Kind == "assume" {
+			fv.assumed[fmt.Sprintf("assumed without check at the head of loop %d of %s: %s", ord, fv.fname, c.Text)] = true
+		}
 	}
 	// body: pick k in dom \ visited
 	more := fv.freshSort("more", "Bool")
@@ -1671,7 +1692,9 @@ func (fv *FV) execRangeMap(st *State, s *ast.RangeStmt, label string, ord int) *
 			env := fv.specEnvAt(bst, s.Body.Lbrace)
 			env.loopHead = true
 			g := fv.evalSpecBool(env, c.Expr)
-			fv.oblige(bst, fmt.Sprintf("loop%d.keep", ord), c.Label, g, c.Text, s.Pos())
+			if c.Kind != "assume" {
+				fv.oblige(bst, fmt.Sprintf("loop%d.keep", ord), c.Label, g, c.Text, s.Pos())
+			}
 		}
 		bindVis(vis.T)
 	}
